@@ -12,7 +12,10 @@ AREAS = {"3": ["main", "lexer", "lists", "texts", "headers", "dataemit", "branch
          "6": ["chlog3", "chlog2b", "chlog2a", "twins", "order", "tokens", "contract", "output"],
          "7": ["C02", "C05", "C11", "C14", "C15", "C16", "C19", "C20"],
          "8": ["C01", "C03", "C04", "C06", "C07", "C08", "C09", "C10", "C12", "C13", "C17", "C18"],
-         "9": ["C04", "C05", "C08", "C12", "C13", "C16", "C17", "C18", "C19", "C20"]}[ROUND]
+         "9": ["C04", "C05", "C08", "C12", "C13", "C16", "C17", "C18", "C19", "C20"],
+         "10": ["C01", "C02", "C03", "C06", "C07", "C09", "C10", "C11", "C14", "C15"],
+         "11": ["C04", "C05", "C08", "C12", "C13", "C16", "C17", "C18", "C19", "C20"],
+         "12": ["C01", "C02", "C03", "C06", "C07", "C09", "C10", "C11", "C14", "C15"]}[ROUND]
 EXTRA = {"main": ["C17", "C18"], "lexer": ["C19"], "lists": ["C14", "C06"], "texts": ["C06"], "headers": ["C08"], "dataemit": [], "branchrender": ["C01"], "constauto": ["C11"]}
 
 def main():
@@ -29,7 +32,7 @@ def main():
             meta = json.load(open(f"{src}/{v}_meta.json"))
             m = re.search(r"C\d\d", str(meta.get("property")))
             pid = m.group(0) if m else "C01"
-            checks = list(dict.fromkeys([pid] + cs.RELATED.get(pid, []) + EXTRA.get(a, []) + (["C17", "C18", "C04"] if ROUND in ("4", "5", "6", "7", "8", "9") else [])))
+            checks = list(dict.fromkeys([pid] + cs.RELATED.get(pid, []) + EXTRA.get(a, []) + (["C17", "C18", "C04"] if int(ROUND) >= 4 else [])))
             head = cs.reset()
             demo = f"{src}/{v}_demo/run.sh"
             ver = {"repo_head": head}
